@@ -120,8 +120,14 @@ fn optimal_deviations<const PLAYER_ONE: bool>(
             }
         }
 
-        // set the max utility of playing to reach an infoset
-        infosets[info].max_utility = payoffs.into_iter().reduce(f64::max).unwrap() / total_reach;
+        // set the max utility of playing to reach an infoset; the reach can underflow to zero, in
+        // which case the infoset is (numerically) unreachable and its value is never weighted
+        let max_payoff = payoffs.into_iter().reduce(f64::max).unwrap();
+        infosets[info].max_utility = if total_reach > 0.0 {
+            max_payoff / total_reach
+        } else {
+            0.0
+        };
     }
     next_infoset_search::<PLAYER_ONE>(start, &mut search_queue, &infosets, chance_info, strat_info)
 }
